@@ -15,16 +15,9 @@ RULE = ("every type without reference unit of the executor universe (Temperature
 EXHAUSTIVE = True
 
 
-def prepare(backends):
-    env = cl.prepare(backends, BINS)
-    for b in backends:
-        env[b]["bins"]["x_core_nostd"] = fw.build_bins(b, ["x_core"], nostd=True)["x_core"]
-    return env
-
-
 def plan(env, tier, seed):
     n = 40 if tier == "quick" else 3000
-    tasks = cl.split_tasks(env, lambda ty, e: e["kind"] in ("noref", "single"))
+    tasks = cl.split_tasks(env, lambda ty, e: e["kind"] in ("noref", "single"), nostd=False)
     for t in tasks:
         t.update({"n": n, "seed": seed, "binname": "x_core"})
     for t in list(tasks):
